@@ -173,7 +173,7 @@ func apCoq(ap netip.AddrPort, validNeedsPort bool) string {
 	if !ap.Addr().IsValid() || (validNeedsPort && ap.Port() == 0) {
 		return "None"
 	}
-	return fmt.Sprintf("(Some (%s, %d))", coqBytes(ap.Addr().AsSlice()), ap.Port())
+	return fmt.Sprintf("(Some (%s, %d))", coqBytes(ap.Addr().Unmap().AsSlice()), ap.Port()) // ::ffff:a.b.c.d is a.b.c.d
 }
 
 func (c Cfg) coq() string {
@@ -223,6 +223,11 @@ func genCfg(r *Rand, ids []uint32) Cfg {
 			d.Addr = netip.AddrPortFrom(netip.AddrFrom4([4]byte{10, byte(r.Intn(3)), 0, byte(1 + r.Intn(200))}), 0)
 		default:
 			d.Addr = netip.AddrPortFrom(netip.AddrFrom4([4]byte{10, byte(r.Intn(3)), 0, byte(1 + r.Intn(200))}), []uint16{60000, 54321, 1, 65535}[r.Intn(4)])
+		}
+		if d.Addr.IsValid() && !d.Addr.Addr().IsUnspecified() && r.Intn(6) == 0 {
+			// the same IPv4 address held in IPv4-mapped form (what netip.AddrFromSlice(net.ParseIP(..)) and
+			// net.UDPAddr.AddrPort() produce): still that controller's endpoint
+			d.Addr = netip.AddrPortFrom(netip.AddrFrom16(d.Addr.Addr().As16()), d.Addr.Port())
 		}
 		if c.Bcast.IsValid() && c.Bcast.Port() != 0 && r.Intn(6) == 0 {
 			d.Addr = c.Bcast // a controller configured at exactly the broadcast address: still its own endpoint and transport
